@@ -496,6 +496,113 @@ pub fn run(ctx: &Ctx, rep: &mut Report) {
         rep.count("key_encoding_collision_candidates");
         check(&e, recs, true, &format!("keyenc:{}", i), rep, true);
     });
+    // patterns that collide under the usual 32-bit string hashes (FNV-1a, FNV-1, djb2, djb2-xor, sdbm, the
+    // 31-multiplier hash, one-at-a-time): a registry keyed by a hash of the request instead of the request
+    // merges them. Collisions are searched at run time among "*.xxxxx" patterns (birthday search).
+    let colliding: Vec<(String, String, &'static str)> = if ctx.wants("hashcoll") {
+        fn fnv1a(s: &[u8]) -> u32 {
+            s.iter().fold(0x811c_9dc5u32, |h, b| (h ^ *b as u32).wrapping_mul(0x0100_0193))
+        }
+        fn fnv1(s: &[u8]) -> u32 {
+            s.iter().fold(0x811c_9dc5u32, |h, b| h.wrapping_mul(0x0100_0193) ^ *b as u32)
+        }
+        fn djb2(s: &[u8]) -> u32 {
+            s.iter().fold(5381u32, |h, b| h.wrapping_mul(33).wrapping_add(*b as u32))
+        }
+        fn djb2x(s: &[u8]) -> u32 {
+            s.iter().fold(5381u32, |h, b| h.wrapping_mul(33) ^ *b as u32)
+        }
+        fn sdbm(s: &[u8]) -> u32 {
+            s.iter().fold(0u32, |h, b| (*b as u32).wrapping_add(h << 6).wrapping_add(h << 16).wrapping_sub(h))
+        }
+        fn java31(s: &[u8]) -> u32 {
+            s.iter().fold(0u32, |h, b| h.wrapping_mul(31).wrapping_add(*b as u32))
+        }
+        fn oaat(s: &[u8]) -> u32 {
+            let mut h = 0u32;
+            for b in s {
+                h = h.wrapping_add(*b as u32);
+                h = h.wrapping_add(h << 10);
+                h ^= h >> 6;
+            }
+            h = h.wrapping_add(h << 3);
+            h ^= h >> 11;
+            h.wrapping_add(h << 15)
+        }
+        // the whole family "*.xxxxx" (26^5 = 11.9 M patterns) is hashed and sorted per hash function; djb2 and
+        // sdbm have no collision inside this family and stay in the list only for the record
+        let hashes: [(&'static str, fn(&[u8]) -> u32); 7] = [("fnv1a", fnv1a), ("fnv1", fnv1), ("java31", java31), ("one-at-a-time", oaat), ("djb2-xor", djb2x), ("djb2", djb2), ("sdbm", sdbm)];
+        let mut out = vec![];
+        let word = |i: u32| -> String {
+            let mut k = i;
+            let mut w = String::from("*.");
+            for _ in 0..5 {
+                w.push((b'a' + (k % 26) as u8) as char);
+                k /= 26;
+            }
+            w
+        };
+        let results: Vec<Vec<(String, String, &'static str)>> = std::thread::scope(|sc| {
+            let hs: Vec<_> = hashes
+                .iter()
+                .map(|(name, f)| {
+                    let (name, f) = (*name, *f);
+                    sc.spawn(move || {
+                        let mut v: Vec<(u32, u32)> = Vec::with_capacity(26usize.pow(5));
+                        let mut buf = *b"*.aaaaa";
+                        for i in 0..26u32.pow(5) {
+                            let mut k = i;
+                            for p in 0..5 {
+                                buf[2 + p] = b'a' + (k % 26) as u8;
+                                k /= 26;
+                            }
+                            v.push((f(&buf), i));
+                        }
+                        v.sort_unstable();
+                        let mut found = vec![];
+                        for w in v.windows(2) {
+                            if w[0].0 == w[1].0 {
+                                found.push((word(w[0].1), word(w[1].1), name));
+                                if found.len() >= 8 {
+                                    break;
+                                }
+                            }
+                        }
+                        found
+                    })
+                })
+                .collect();
+            hs.into_iter().map(|h| h.join().unwrap_or_default()).collect()
+        });
+        for r in results {
+            out.extend(r);
+        }
+        out
+    } else {
+        vec![]
+    };
+    rep.add("hash_colliding_pattern_pairs_found", colliding.len() as u64);
+    par_cases(ctx, "hashcoll", (colliding.len() * 4) as u64, rep, |i, rep| {
+        let (a, b, _family) = &colliding[(i as usize) / 4];
+        let mk = |s: &String, k: u64| match k {
+            0 => t(Test::Name(s.clone())),
+            1 => t(Test::InsensitiveName(s.clone())),
+            2 => t(Test::Path(s.clone())),
+            _ => t(Test::InsensitivePath(s.clone())),
+        };
+        let k = i % 4;
+        let e = all_run_chain(vec![mk(a, k), mk(b, k), act(Action::Print)]);
+        let mut recs = vec![];
+        for (j, p) in [a, b].iter().enumerate() {
+            for v in name_variants(p).into_iter().take(2) {
+                let mut rec = FileRecord::base(j as u64);
+                rec.relpath = v;
+                recs.push(rec);
+            }
+        }
+        rep.count("hash_collision_candidates");
+        check(&e, recs, true, &format!("hashcoll:{}", i), rep, true);
+    });
     if ctx.only.is_none() {
         rep.floor("sharing counts observed at run time", rep.get("sharing_counts_checked") > 100);
         rep.floor("programs with many resources observed (>= 30 bindings or >= 12 distinct requests)", rep.get_max("max_bindings_in_one_program") >= 30 || rep.get_max("max_requests_in_one_program") >= 12);
